@@ -58,7 +58,7 @@ func TestStreamedResults(t *testing.T) {
 		if c.Spec.ClientCloses {
 			stats.Class("stream:client-closes")
 		}
-		if msg := streamcase.ServerToClient(d, s, meth, c, obs); msg != "" {
+		if msg := streamcase.ServerToClient(d, s, meth, c, obs); msg != "" && !streamcase.Skipped(msg) {
 			if strings.HasPrefix(msg, "INCONCLUSIVE") {
 				rt_.Fatalf("%s", msg)
 			}
